@@ -390,6 +390,127 @@ def _s16(x):
     return struct.pack("<H", x)
 
 
+# ------------------------------------------------------------------ upload parsers (C05)
+
+class _Resp:
+    def __init__(self, data, status):
+        self.data, self.service_status = data, status
+
+
+def _rand_ident(rng, allow_empty=False):
+    if allow_empty and rng.random() < 0.1:
+        return ""
+    base = rng.choice(["LEN", "DATA", "CTL", "Control", "Speed", "ZZZZZZZZZZAxis0", "__hidden", "a", "Val_1", "PRE", "ACC", "EN", "x" * rng.choice([1, 5, 40])])
+    return base if rng.random() < 0.6 else base + str(rng.randrange(100))
+
+
+def run_upload_parsers(ctx, model, focus):
+    """_parse_instance_attribute_list and _parse_template_data == Logix/Upload.lean"""
+    rng = ctx.rng
+    lines, pend = [], []
+    # --- symbol records
+    for i in range(ctx.budget(150, 2000)):
+        rev = rng.choice([16, 17, 18, 20, 32])
+        d = bare_driver()
+        d._info["revision"] = {"major": rev, "minor": 1}
+        wa = rev >= 18
+        recs, data = [], b""
+        for k in range(rng.choice([0, 1, 2, 5, 20])):
+            name = rng.choice(["Tag", "Program:Main", "Local:1:I", "a" * rng.choice([1, 2, 40]), "t\xe9", ""]) + (str(k) if rng.random() < 0.5 else "")
+            r = (rng.choice([1, 2, 300, 70000, 2 ** 32 - 1]), name, rng.randrange(65536), rng.getrandbits(32), rng.getrandbits(32), rng.getrandbits(32),
+                 [rng.choice([0, 1, 10, 70000]) for _ in range(3)], rng.randrange(256))
+            recs.append(r)
+            nb = name.encode("latin-1")
+            data += struct.pack("<IH", r[0], len(nb)) + nb + struct.pack("<HIIIIII", r[2], r[3], r[4], r[5], *r[6]) + (bytes([r[7]]) if wa else b"")
+        mode = rng.choice(["ok", "ok", "ok", "cut", "extra"])
+        if mode == "cut" and data:
+            data = data[: rng.randrange(len(data))]
+        elif mode == "extra":
+            data += bytes(rng.getrandbits(8) for _ in range(rng.choice([1, 3, 7])))
+        out = []
+        try:
+            nxt = d._parse_instance_attribute_list(_Resp(data, rng.choice([0, 6])), out)
+            impl = "ok (" + " ".join("(%d %s %d %d %d %d (%d %d %d) %s)" % (
+                t["instance_id"], sx.name(t["tag_name"]), t["symbol_type"], t["symbol_address"], t["symbol_object_address"], t["software_control"],
+                t["dimensions"][0], t["dimensions"][1], t["dimensions"][2], "N" if not wa else "A") for t in out) + ")"
+        except BaseException as e:  # noqa
+            impl = "err " + core.exn_class(e)
+        ctx.case("kernel-records", ("records", rev, mode, len(recs), data))
+        lines.append("k.records %s %s" % ("T" if wa else "F", sx.hexb(data)))
+        pend.append(("kernel-records", {"rev": rev, "mode": mode, "data": data.hex()}, impl))
+    # --- structure definitions
+    for i in range(ctx.budget(200, 2500)):
+        d = bare_driver()
+        d._get_data_type = lambda inst, typ: {"name": "S%d" % inst, "type_class": __import__("pycomm3").cip.Struct()}
+        n = rng.choice([0, 1, 2, 3, 6, 12])
+        sym = rng.choice([0x8123, 0x8FCE, 0x80FF, 0x8100, 0x8EFF, 0x8F00, 0xA234, 0x8045])
+        is_string = rng.random() < 0.15
+        members = []
+        if is_string:
+            members = [("LEN", 0, 0xC4, 0), ("DATA", rng.choice([1, 82, 480]), 0xC2, 4)]
+        else:
+            off = 0
+            for k in range(n):
+                typ = rng.choice([0xC1, 0xC2, 0xC3, 0xC4, 0xC8, 0xCA, 0xCB, 0xD3, 0x8123, 0x8FCE, 0x20C4, 0x0FC4, 0x8000 | 0xC4])
+                info = rng.randrange(8) if typ == 0xC1 else rng.choice([0, 0, 2, 10])
+                members.append((_rand_ident(rng, allow_empty=True), info, typ, off))
+                off += rng.choice([0, 1, 4, 8])
+        tname = rng.choice(["MyUDT", "TIMER", "ASCIISTRING82", "U" * 40, "x"])
+        with_semicolon = rng.random() < 0.8
+        namefield = (tname + ";n" + rng.choice(["", "EATDPBAA", ";x"])) if with_semicolon else None
+        names = ([namefield] if namefield is not None else ([tname] if rng.random() < 0.7 else [])) + [m[0] for m in members]
+        data = b"".join(struct.pack("<HHI", m[1], m[2], m[3]) for m in members) + b"".join(x.encode() + b"\0" for x in names)
+        data += bytes(rng.choice([0, 0, 1, 3]))
+        count = len(members) if rng.random() < 0.9 else max(0, len(members) + rng.choice([-1, 1]))
+        if rng.random() < 0.05 and data:
+            data = data[: rng.randrange(len(data))]
+        template = {"member_count": count, "structure_size": rng.choice([4, 8, 88, 484]), "structure_handle": 1, "object_definition_size": 10}
+        try:
+            dt = d._parse_template_data(data, template, sym)
+            mem = []
+            for nm_, info in dt["internal_tags"].items():
+                mem.append("(%s %d %s)" % (sx.name(nm_), info["offset"], "T" if nm_ not in dt["attributes"] else "F"))
+            impl = "ok %s (%s) (%s) %s" % ("N" if dt["name"] is None else sx.name(dt["name"]), " ".join(mem), " ".join(sx.name(a) for a in dt["attributes"]),
+                                           "N" if "string" not in dt else str(dt["string"]))
+        except BaseException as e:  # noqa
+            impl = "err " + core.exn_class(e)
+        ctx.case("kernel-template", ("tmpl", count, sym, data))
+        if any(b >= 0x80 for b in data[count * 8:]):
+            # names outside ASCII (here: member-info bytes read as names after a wrong member count) are decoded as UTF-8
+            # with replacement by the real code; the model is restricted to ASCII names
+            ctx.unmodelled("kernel-template")
+            continue
+        lines.append("k.template %d %d %s" % (count, sym, sx.hexb(data)))
+        pend.append(("kernel-template", {"count": count, "symbol_type": sym, "data": data.hex()}, impl))
+    _flush_upload(ctx, model, lines, pend)
+
+
+def _flush_upload(ctx, model, lines, pend):
+    """model output is richer than what the real data structures expose uniformly: project it first"""
+    outs = model.batch(lines) if lines else []
+    for (stream, case, impl), out in zip(pend, outs):
+        if stream == "kernel-records" and out.startswith("ok"):
+            # access: the real code maps the code through EXTERNAL_ACCESS (text); compare presence only
+            items = sx.parse(out[3:])[0]
+            out = "ok (" + " ".join("(%s %s %s %s %s %s (%s) %s)" % (
+                it[0], _sx_name(it[1]), it[2], it[3], it[4], it[5], " ".join(it[6]), "N" if it[7] == "N" else "A") for it in items) + ")"
+        elif stream == "kernel-template" and out.startswith("ok"):
+            parts = sx.parse(out[3:])
+            name, members, attrs, string = parts
+            # dict semantics of internal_tags: a repeated member name keeps its first position and its last info
+            seen = {}
+            for m in members:
+                seen[_sx_name(m[0])] = (m[3], m[4])
+            mem = " ".join("(%s %s %s)" % (k, v[0], v[1]) for k, v in seen.items())
+            out = "ok %s (%s) (%s) %s" % ("N" if name == "N" else _sx_name(name), mem, " ".join(_sx_name(a) for a in attrs), string)
+        if out != impl:
+            ctx.mismatch(stream, {k: (str(v)[:300]) for k, v in case.items()}, impl[:300], out[:300])
+
+
+def _sx_name(x):
+    return "(" + " ".join(x) + ")" if isinstance(x, list) else x
+
+
 def _flush(ctx, model, lines, pend):
     outs = model.batch(lines) if lines else []
     for (stream, case, impl), out in zip(pend, outs):
